@@ -473,19 +473,29 @@ func (db *DB) mapPartitionRequests(in chan *partitionRequest, mapped chan *parti
 }
 
 func (db *DB) mapPartitionRequest(h hash.Hash32, req *partitionRequest, mapped chan *partitionsResult) {
-	defer func() {
-		p := recover()
-		if p != nil {
-			db.log.Errorf("Panic in following: %v", p)
-		}
-	}()
-
 	partitions := req.partitions
 	entry := req.entry
 	result := &partitionsResult{
 		entry:      entry,
 		partitions: make(map[string]*partitionResult),
 	}
+
+	defer func() {
+		p := recover()
+		if p != nil {
+			db.log.Errorf("Panic in following: %v", p)
+			// We still have to report a result for this request, otherwise
+			// reducePartitionRequests waits for it forever and nothing is sent to
+			// any follower anymore. Partitions that we didn't get to are reported
+			// with a partition id that no follower has, so the entry is skipped.
+			for partitionKeys := range partitions {
+				if result.partitions[partitionKeys] == nil {
+					result.partitions[partitionKeys] = &partitionResult{pid: -1, wherePassed: make(map[string]bool)}
+				}
+			}
+			mapped <- result
+		}
+	}()
 
 	data := entry.data
 	// Skip timestamp
@@ -507,7 +517,7 @@ func (db *DB) mapPartitionRequest(h hash.Hash32, req *partitionRequest, mapped c
 			}
 			wherePassed, found := whereResults[table.whereString]
 			if !found {
-				wherePassed = table.where == nil || table.where.Eval(dims).(bool)
+				wherePassed = table.where == nil || db.evalFollowWhere(table.where, dims)
 				if db.log.IsTraceEnabled() {
 					db.log.Tracef("Evaluated where %v with result %v on %v", table.where, wherePassed, dims.AsMap())
 				}
@@ -518,6 +528,20 @@ func (db *DB) mapPartitionRequest(h hash.Hash32, req *partitionRequest, mapped c
 	}
 
 	mapped <- result
+}
+
+// evalFollowWhere evaluates a table's WHERE clause against the given dims. If
+// the evaluation panics (e.g. a dimension of an unexpected type), the entry is
+// treated as not matching that table, like (*table).insert does on the follower.
+func (db *DB) evalFollowWhere(where goexpr.Expr, dims bytemap.ByteMap) (passed bool) {
+	defer func() {
+		p := recover()
+		if p != nil {
+			db.log.Errorf("Panic evaluating where %v: %v", where, p)
+			passed = false
+		}
+	}()
+	return where.Eval(dims).(bool)
 }
 
 func (db *DB) reducePartitionRequests(parallelism int, mapped chan *partitionsResult, results chan *partitionsResult, queued chan int, drained chan bool, stop <-chan interface{}) {
